@@ -108,7 +108,22 @@ func (k *comparer) cmpField(f *field, pre, exp, got reflect.Value, cv *cval, pc 
 			w = where
 		}
 		k.cmpStruct(f.sub, pre, exp, got, cv, pc.below(), w, path)
+	case kUntouched:
+		// no configuration mentions it: same contents, and what it refers to is
+		// still the same object (a pointer into a ring is compared by identity
+		// only: the ring may contain the target itself)
+		switch {
+		case f.flavour != "recursive-pointer" && !equal(exp, got, true):
+			k.violate(unm, path, exp, got, "")
+		case f.flavour == "recursive-pointer" && !k.sameRef(pre, got):
+			k.violate(unm+":identity", path, exp, got, " (another pointer)")
+		case f.flavour == "interface-with-initdefaults" && pre.IsValid() && !pre.IsNil() && !got.IsNil() && !k.sameRef(pre.Elem(), got.Elem()):
+			k.violate(unm+":identity", path, exp, got, " (equal contents, another pointer inside the interface)")
+		}
 	case kPtrStruct:
+		if f.inline && !absent && cv.real == 0 {
+			absent = true // an inlined struct is mentioned when one of its fields is
+		}
 		switch {
 		case absent && !equal(exp, got, true):
 			k.violate(unm, path, exp, got, "")
@@ -227,6 +242,19 @@ func (k *comparer) cmpField(f *field, pre, exp, got reflect.Value, cv *cval, pc 
 		case got.IsNil():
 			k.violate(men, path, exp, got, "")
 		default:
+			if pc.pol == "replace" && !equal(exp, got, false) {
+				// is it the key-wise merge, as if there were no replace policy?
+				h := reflect.New(f.typ).Elem()
+				if pre.IsValid() {
+					h.Set(deepCopy(pre))
+				}
+				(&modeler{cfgs: k.cfgs}).applyField(f, h, cv, polCtx{"default", "none", ""})
+				if equal(h, got, false) {
+					k.violate("map-not-replaced-under-replace-policy:"+pc.src+":"+f.shape()+"@"+where, path, exp, got,
+						fmt.Sprintf(" (pre-filled %s, setting %s, policy replace from %s: the old entries are still there)", render(h0(pre, f.typ)), renderGo(cv.toGo()), pc.src))
+					return
+				}
+			}
 			var keys []string
 			for _, key := range exp.MapKeys() {
 				keys = append(keys, key.String())
@@ -235,10 +263,6 @@ func (k *comparer) cmpField(f *field, pre, exp, got reflect.Value, cv *cval, pc 
 			for _, ks := range keys {
 				key := reflect.ValueOf(ks)
 				_, mentioned := cv.keys[ks]
-				if !mentioned && replaces(pc) {
-					k.res.Ev("map_entries_under_replace_not_compared", 1)
-					continue // what a replacing policy does to untouched map entries is not pinned down
-				}
 				gv := got.MapIndex(key)
 				if gv.IsValid() && equal(exp.MapIndex(key), gv, true) {
 					continue
@@ -261,6 +285,13 @@ func (k *comparer) cmpField(f *field, pre, exp, got reflect.Value, cv *cval, pc 
 			}
 		}
 	}
+}
+
+func h0(pre reflect.Value, t reflect.Type) reflect.Value {
+	if pre.IsValid() {
+		return pre
+	}
+	return reflect.Zero(t)
 }
 
 // listSig classifies a wrong list result. gotIsDefault: the observed list is
@@ -290,7 +321,24 @@ func listSig(pc polCtx, site string, gotIsDefault bool) string {
 // element values. Returns the path of the first difference or "".
 func (k *comparer) untouched(snap, got reflect.Value, path string) string {
 	switch snap.Kind() {
+	case reflect.Interface:
+		if snap.IsNil() != got.IsNil() {
+			return path + " (interface nil-ness)"
+		}
+		if snap.IsNil() {
+			return ""
+		}
+		if snap.Elem().Type() != got.Elem().Type() {
+			return path + " (holds another type)"
+		}
+		return k.untouched(snap.Elem(), got.Elem(), path)
 	case reflect.Struct:
+		if t := snap.Type(); t == tRegexp || t == tConfigVal {
+			if !equal(snap, got, true) {
+				return path
+			}
+			return ""
+		}
 		for i := 0; i < snap.NumField(); i++ {
 			if d := k.untouched(snap.Field(i), got.Field(i), path+"."+snap.Type().Field(i).Name); d != "" {
 				return d
